@@ -17,7 +17,7 @@ import time
 from collections import Counter
 from typing import Any, Dict, List, Optional, Tuple
 
-from bounded.common import N, make_cer, pmap, run as run_coro, set_cer
+from bounded.common import F, N, make_cer, pmap, run as run_coro, set_cer
 
 MAXV = 5
 
@@ -543,6 +543,105 @@ def _check_pipeline(case: dict) -> dict:
     return r
 
 
+# ------------------------------------------------------------------------------------------------ part (d): histories
+def _vandalise_results(results: list) -> int:
+    """what a caller may legitimately do with the objects it was handed: edit them in place"""
+    from ahbicht.models.condition_nodes import EvaluatedFormatConstraint
+    edits = 0
+    for cer in results:
+        for k in list(cer.requirement_constraints):
+            cer.requirement_constraints[k] = N
+            edits += 1
+        for k in list(cer.format_constraints):
+            cer.format_constraints[k] = EvaluatedFormatConstraint(format_constraint_fulfilled=True, error_message="edited")
+            edits += 1
+        cer.requirement_constraints["4711"] = F
+        cer.format_constraints.pop(next(iter(cer.format_constraints), None), None)
+        cer.hints["599"] = "edited"
+        cer.packages["1P"] = "[1]"
+        edits += 3
+    if results:
+        results.append(results[0])
+        del results[0]
+    return edits
+
+
+def _check_product_history(item: Tuple[List[str], List[str], List[str]]) -> dict:
+    """generate -> edit everything that was returned, in place -> generate again (same extract, an equal new extract,
+    an extract of a differently written expression with the same keys): the later results must be the Cartesian product
+    again.  Also: the extract itself is not changed by generating."""
+    from ahbicht.models.categorized_key_extract import CategorizedKeyExtract
+    rc_keys, fc_keys, hint_keys = item
+    extract = CategorizedKeyExtract(hint_keys=list(hint_keys), format_constraint_keys=list(fc_keys),
+                                    requirement_constraint_keys=list(rc_keys), package_keys=[], time_condition_keys=[])
+    first = extract.generate_possible_content_evaluation_results()
+    edits = _vandalise_results(first)
+    problems: List[str] = []
+    if (extract.requirement_constraint_keys, extract.format_constraint_keys, extract.hint_keys) != (list(rc_keys), list(fc_keys), list(hint_keys)):
+        problems.append("generating / editing the results changed the extract itself")
+    second = extract.generate_possible_content_evaluation_results()
+    shared = any(a is b for a in second for b in first)
+    after = _check_product(item)  # a new, equal extract
+    for pr in after["problems"]:
+        problems.append("after editing the results of an earlier call in place: " + pr)
+    if problems and shared:  # an explanation, not a demand of its own
+        problems.append("(the second call hands out objects the first call handed out)")
+    return {"rc": rc_keys, "fc": fc_keys, "hints": hint_keys, "edits": edits, "problems": problems, "results": after["results"]}
+
+
+REPLAY_D = ("from bounded import c18\nprint(c18._check_product_history(({r!r}, {f!r}, {h!r})))")
+
+
+def _part_d(ctx, tier: str, seed: int) -> None:
+    """history clause of the enumeration and of the extraction: objects handed to a caller are the caller's"""
+    import ahbicht.content_evaluation  # noqa: F401
+    from ahbicht.expressions.condition_expression_parser import extract_categorized_keys
+    t0 = time.time()
+    items = [it for it in _product_items(tier, seed) if 1 <= len(it[0]) + len(it[1]) <= 4]
+    results = [_check_product_history(it) for it in items]  # same process on purpose: the history is the point
+    reported = 0
+    for r in sorted(results, key=lambda r: (len(r["rc"]) + len(r["fc"]), r["rc"], r["fc"])):
+        if r["problems"] and reported < MAXV and _check_product_history((r["rc"], r["fc"], r["hints"]))["problems"]:
+            reported += 1
+            ctx.violation(obligation=f"bounded/possible-results-after-caller-edits/{reported}",
+                          message=f"generate_possible_content_evaluation_results for rc={r['rc']} fc={r['fc']} hints={r['hints']}: "
+                                  + "; ".join(r["problems"][:2]),
+                          witness=r, replayed=True, signature=f"product-history|{r['rc']}|{r['fc']}|{r['hints']}",
+                          replay_code=REPLAY_D.format(h=r["hints"], f=r["fc"], r=r["rc"]))
+    # extraction: edit the lists of a returned extract, extract again
+    exprs = ["[1] U [2]", "[3] O [501] U [901]", "([10] X [2000])[902]", "[1][950] U [7] O [502]", "[53]"]
+    bad = []
+    n_ext = 0
+    for e in exprs:
+        a = run_coro(extract_categorized_keys(e)) if _is_coro_fn(extract_categorized_keys) else extract_categorized_keys(e)
+        snapshot = _as_dict(a)
+        for lst in (a.requirement_constraint_keys, a.hint_keys, a.format_constraint_keys, a.package_keys, a.time_condition_keys):
+            lst.append("4711")
+            lst.reverse()
+        b = run_coro(extract_categorized_keys(e)) if _is_coro_fn(extract_categorized_keys) else extract_categorized_keys(e)
+        n_ext += 2
+        if _as_dict(b) != snapshot:
+            bad.append({"expression": e, "first": snapshot, "after_editing_the_first": _as_dict(b)})
+    for n, b in enumerate(bad[:2]):
+        ctx.violation(obligation=f"bounded/extract-after-caller-edits/{n + 1}",
+                      message=f"extract_categorized_keys({b['expression']!r}) returns {b['after_editing_the_first']} after the "
+                              f"lists of an earlier result were edited in place (first: {b['first']})",
+                      witness=b, replayed=True, signature=f"extract-history|{b['expression']}",
+                      replay_code="extract, append to / reverse the returned lists, extract again")
+    ctx.bounded("results and extracts handed out earlier may be edited in place without affecting later calls",
+                evaluations=3 * len(results) + n_ext, distinct_nontrivial=len({(tuple(r["rc"]), tuple(r["fc"]), tuple(r["hints"])) for r in results if r["edits"] > 0}) + len(exprs),
+                rule="distinct key sets whose first results were edited in place (every mapping of every result, the list "
+                     "itself) before generating again + distinct expressions whose extract lists were edited before extracting again",
+                samples=[{"rc": r["rc"], "fc": r["fc"], "edits": r["edits"]} for r in results[:2]], exhaustive=False,
+                bound=f"{len(results)} key sets with 1 <= m + n <= 4, one generate / edit / generate history each, in one process; {len(exprs)} expressions",
+                seconds=time.time() - t0)
+
+
+def _is_coro_fn(f) -> bool:
+    import inspect
+    return inspect.iscoroutinefunction(f)
+
+
 # ------------------------------------------------------------------------------------------------ entry point
 def run(ctx, tier: str, seed: int) -> None:
     ctx.trust("A-LARK-TREE (lark Tree.scan_values visits every token)", "A-STDLIB (set, list.sort, itertools)")
@@ -551,3 +650,4 @@ def run(ctx, tier: str, seed: int) -> None:
     _part_a(ctx)
     cases = _part_b(ctx, tier, seed)
     _part_c(ctx, tier, seed, cases)
+    _part_d(ctx, tier, seed)
